@@ -209,3 +209,19 @@ extend("C18", "budget entries outlive the bundle, refund only for peers the algo
        "A budget entry is deleted only for a bundle the store no longer knows; a failed direct delivery is not refunded.")
 extend("C19", "advertised vector replaced as a whole")
 extend("C20", "once-per-peer within one call of filterCLAs")
+
+
+# ---- audit round 4 (DESIGN.md §19)
+extend("C04", "non-negative arc costs for the shortest-path search over received link-state data",
+       "Link-state bytes from the network cannot make the routing table computation run for ever (every time difference in an edge cost is taken behind now >= lossTime).")
+extend("C05", "acknowledged-not-dropped-on-stop (known finding), ack-after-hand-over shared with C11",
+       "", "Known finding (not repaired): bundles acknowledged to their sender but still between CLA and Core are dropped at an orderly shutdown.")
+extend("C06", "bundle age addition saturates")
+extend("C07", "REST client life cycle (registration re-tested with the mailbox, client removed with the mailbox, taken bundles returned when the response fails), WebSocket writes bounded by a deadline",
+       "No bundle enters the mailbox of an unregistered REST client; a failed /fetch response loses nothing; a client that stops reading cannot stall the fan-out.")
+extend("C08", "index database opened with Truncate",
+       "A write cut short by a kill costs only that unacknowledged entry, not the start of the node.")
+extend("C11", "END acknowledged only after the bundle was handed up")
+extend("C16", "restartable adapters (channels closed on the way down are re-created by Start), removal serialised with registration, failed Start releases its connection",
+       "An adapter can be started again after a stop; an element is removed from the registry only under the registration lock; a timed-out TCPCLv4 Start dials again.")
+extend("C20", "edge cost sign guard")
